@@ -142,7 +142,9 @@ func (pnf *PrevNextFinder) FindOutlink(root *html.Node, pageURL *nurl.URL, findN
 			continue
 		}
 
-		if findNext && !rxNumber.MatchString(linkHref[lenPrefix:]) {
+		// The prefix is matched case-insensitively, and changing the case of a string may change
+		// its length in bytes, so the href is not necessarily as long as the prefix.
+		if findNext && (len(linkHref) < lenPrefix || !rxNumber.MatchString(linkHref[lenPrefix:])) {
 			pnf.appendDebugStrForLink(link, "ignored: not prefix + number")
 			continue
 		}
